@@ -112,22 +112,22 @@ def check_state(agg, names, make, site_prefix, case, expect_model=True):
             if by_col[i] != want:
                 agg.violation(V(f"{site_prefix}.sanitise", "accessor-differs-from-documented-rule", dict(case, column=i, stored=nm), want, by_col[i]))
                 okk = False
-    # item assignment through the accessor writes its own column only
-    for a, i in owner.items():
-        t2 = make()
-        before = [list(c._underlying) for c in t2.cols()]
+    # item assignment through the accessor writes its own column only (one fresh object, writes applied in turn)
+    t2 = make()
+    want = [list(c._underlying) for c in t2.cols()]
+    for n_, (a, i) in enumerate(sorted(owner.items())):
         try:
-            t2[0, a] = 777
+            t2[0, a] = 777 + n_
         except Exception as e:
             agg.violation(V(f"{site_prefix}.setitem", "accessor-not-usable-as-column-key", dict(case, accessor=a), None, type(e).__name__))
             okk = False
             continue
+        want[i][0] = 777 + n_
         after = [list(c._underlying) for c in t2.cols()]
-        want = [list(b) for b in before]
-        want[i][0] = 777
         if after != want:
             agg.violation(V(f"{site_prefix}.setitem", "accessor-writes-wrong-column", dict(case, accessor=a, column=i), want, after))
             okk = False
+            break
     # row attribute access
     t3 = make()
     try:
@@ -146,7 +146,7 @@ def check_state(agg, names, make, site_prefix, case, expect_model=True):
         agg.violation(V(f"{site_prefix}.row", "row-access-raises-" + type(e).__name__, case))
         okk = False
     # string indexing by stored name: first occurrence; stored names untouched
-    t4 = make()
+    t4 = t
     for nm in set(n for n in names if isinstance(n, str)):
         first = list(names).index(nm)
         try:
@@ -160,13 +160,12 @@ def check_state(agg, names, make, site_prefix, case, expect_model=True):
             agg.violation(V(f"{site_prefix}.getitem", "stored-name-not-first-occurrence", dict(case, key=nm), first, got,
                             py=f"from serif import Table, Vector\nt = Table([Vector([i], name=n) for i, n in enumerate({list(names)!r})])\nprint(list(t[{nm!r}]))  # expected [{first}]"))
             okk = False
-    for tt in (t, t4):
+    for tt in (t, t2):
         if tt.column_names() != list(names):
             agg.violation(V(f"{site_prefix}.names", "stored-names-altered", case, list(names), tt.column_names()))
             okk = False
     # dot row of the repr advertises the same names
-    t5 = make()
-    dr = dot_row(t5)
+    dr = dot_row(t)
     if dr == "raises":
         agg.violation(V(f"{site_prefix}.repr", "repr-raises", case))
         okk = False
@@ -217,6 +216,162 @@ def unit_wide(unit):
     return agg
 
 
+# ------------------------------------------------------------------------------------------ Engine H
+from mc import explorer
+from mc.explorer import Slot, World, Outcome
+
+
+class Disabled(Exception):
+    pass
+
+
+class Driver:
+    Disabled = Disabled
+
+    def __init__(self, seeds, names=None, max_width=3):
+        self._seeds = [tuple(x) for x in seeds]
+        self.names = list(names if names is not None else ALPHA_H)
+        self.max_width = max_width
+
+    def new_world(self):
+        from mc import valloc
+        w = World()
+        w.alloc = valloc.CURRENT
+        w.extra["names"] = []
+        return w
+
+    def after_event(self, world):
+        pass
+
+    def seeds(self):
+        return [[("init", tuple(s))] for s in self._seeds]
+
+    def snapshot(self, world):
+        if not world.slots:
+            return []
+        t = world.slots[0].obj
+        return [[list(c._underlying) for c in t._underlying]]
+
+    def canon(self, world):
+        return explorer.canon_world(world, "current")
+
+    def events(self, world):
+        names = world.extra["names"]
+        W = len(names)
+        ev = [("dir",), ("repr",)]
+        for c in range(W):
+            ev += [("getattr", c), ("rowattr", c), ("setitem_acc", c), ("replace", c)]
+            for ni in range(len(self.names)):
+                ev.append(("ren_view", c, ni))
+                if isinstance(names[c], str) and names.index(names[c]) == c:
+                    ev.append(("ren_item", c, ni))
+                    ev.append(("ren_col", c, ni))
+        if W >= 2 and all(isinstance(n, str) for n in names[:2]) and names[0] != names[1]:
+            for ni in range(len(self.names)):
+                ev.append(("ren_cols", ni))
+        if W < self.max_width:
+            for ni in range(len(self.names)):
+                ev.append(("append_vec", ni))
+                if isinstance(self.names[ni], str):
+                    ev.append(("append_dict", ni))
+        return ev
+
+    def _accessor(self, t, c):
+        for a in sorted(advertised(t)):
+            try:
+                if getattr(t, a) is t.cols()[c]:
+                    return a
+            except Exception:
+                pass
+        return None
+
+    def apply(self, world, ev):
+        from serif import Vector
+        op = ev[0]
+        names = world.extra["names"]
+        if op == "init":
+            t = build(ev[1])
+            world.slots.append(Slot("tab", t))
+            world.extra["names"] = list(ev[1])
+            return Outcome(readonly=True)
+        t = world.slots[0].obj
+        try:
+            if op == "dir":
+                dir(t)
+            elif op == "repr":
+                repr(t)
+            elif op == "getattr":
+                a = self._accessor(t, ev[1])
+                if a is None:
+                    raise Disabled()
+                getattr(t, a)
+            elif op == "rowattr":
+                a = self._accessor(t, ev[1])
+                if a is None:
+                    raise Disabled()
+                getattr(t[0], a)
+            elif op == "setitem_acc":
+                a = self._accessor(t, ev[1])
+                if a is None:
+                    raise Disabled()
+                t[0, a] = 500 + world.fresh()
+            elif op == "replace":
+                a = self._accessor(t, ev[1])
+                if a is None:
+                    raise Disabled()
+                setattr(t, a, [600 + world.fresh(), 600 + world.fresh()])
+            elif op == "ren_view":
+                new = self.names[ev[2]]
+                t.cols()[ev[1]].name = new
+                names[ev[1]] = new
+            elif op == "ren_item":
+                new = self.names[ev[2]]
+                t[names[ev[1]]].name = new
+                names[ev[1]] = new
+            elif op == "ren_col":
+                new = self.names[ev[2]]
+                t.rename_column(names[ev[1]], new)
+                names[ev[1]] = new
+            elif op == "ren_cols":
+                new = self.names[ev[1]]
+                new2 = self.names[(ev[1] + 1) % len(self.names)]
+                t.rename_columns([names[0], names[1]], [new, new2])
+                for o, nw in zip([names[0], names[1]], [new, new2]):      # sequential first-match semantics
+                    names[names.index(o)] = nw
+            elif op in ("append_vec", "append_dict"):
+                new = self.names[ev[1]]
+                k = 700 + world.fresh()
+                r = (t >> Vector([k, k + 1], name=new)) if op == "append_vec" else (t >> {new: [k, k + 1]})
+                world.slots[0] = Slot("tab", r)
+                names.append(new)
+            else:
+                raise Disabled()
+        except Disabled:
+            raise
+        except Exception as e:
+            return Outcome(raised=e)
+        return Outcome(targets={0})
+
+    def check(self, world, pre, ev, out, agg, hist):
+        names = tuple(world.extra["names"])
+        case = {"history": [[list(x) if isinstance(x, tuple) else x for x in e] for e in hist], "names_now": list(names)}
+        if out.raised is not None:
+            agg.violation(V(f"history.{ev[0]}", "operation-on-advertised-accessor-raises-" + type(out.raised).__name__, case, None, repr(out.raised)[:80]))
+            agg.outcomes["hist-violation"] += 1
+            return
+
+        def make():
+            w, _, _ = explorer.replay(self, hist)
+            return w.slots[0].obj
+
+        if nontrivial(names):
+            agg.nontrivial += 1
+        if check_state(agg, names, make, "history", case):
+            agg.outcomes["hist-accessors-ok"] += 1
+        else:
+            agg.outcomes["hist-violation"] += 1
+
+
 def run_unit(unit):
     if unit[0] == "names":
         return unit_names(unit)
@@ -233,14 +388,30 @@ def check(ctx):
             units.append(("names", w, first))
     units += [("wide", 11), ("wide", 12)]
     agg = core.merge_all(core.pmap(run_unit, units))
-    agg.notes["bound"] = f"E: width<={W} over {len(ALPHA)} names"
-    agg.notes["exhaustive"] = True
+    # Engine H: histories of rename / replace / append / observation events
+    D = ctx.pick(2, 3)
+    seeds_w1 = [(a,) for a in ALPHA_H]
+    seeds_w2 = [(a, b) for a in ALPHA_H for b in ALPHA_H]
+    explorer.bfs(Driver(seeds_w1, ALPHA_H, max_width=2), D + 1, agg)            # +1: the 'init' event
+    explorer.bfs(Driver(seeds_w2, ALPHA_H, max_width=3), D, agg)
+    small = ["a", "A", None]
+    explorer.bfs(Driver([(a,) for a in small], small + ["sum"], max_width=2), D + 2, agg)
+    agg.notes["bound"] = (f"E: width<={W} over {len(ALPHA)} names; H: depth<={D} from width-1 tables and depth<={D-1} from width-2 tables over "
+                          f"{len(ALPHA_H)} names, depth<={D+1} from width-1 tables over a 3-name sub-alphabet")
     return agg
 
 
 def coverage_goals(ctx, agg):
-    return [] if agg.outcomes.get("accessors-ok", 0) > 1000 else ["accessors-ok"]
+    return [k for k in ("accessors-ok", "hist-accessors-ok") if agg.outcomes.get(k, 0) < 1000]
 
 
 def replay(rec):
-    return None
+    case = rec.get("case") or {}
+    if "history" not in case:
+        return None
+    hist = tuple(tuple(tuple(x) if isinstance(x, list) else x for x in e) for e in case["history"])
+    drv = Driver([hist[0][1]], ALPHA_H)
+    agg = Agg()
+    w, pre, out = explorer.replay(drv, hist)
+    drv.check(w, pre, hist[-1], out, agg, hist)
+    return set(agg.viol)
